@@ -111,6 +111,14 @@ pub struct Args {
     global: GlobalSharedParameters,
 }
 
+/// Whether the file has at least one line ending and every one of them is CR LF
+fn has_only_crlf_line_endings(path: &Path) -> bool {
+    fs::read(path).is_ok_and(|raw| {
+        let line_feeds = raw.iter().filter(|byte| **byte == b'\n').count();
+        line_feeds > 0 && raw.windows(2).filter(|pair| pair == b"\r\n").count() == line_feeds
+    })
+}
+
 impl Args {
     pub(crate) fn run(&self) -> Result<()> {
         // init parser and determine suffices to look for
@@ -332,6 +340,13 @@ impl Args {
                     }
 
                     count_updated += 1;
+                    // a document whose lines all end in CR LF keeps its line endings
+                    // (it was read with CR LF translated, and so was generated with LF)
+                    let updated = if !is_conversion && has_only_crlf_line_endings(&test.path) {
+                        updated.replace('\n', "\r\n")
+                    } else {
+                        updated
+                    };
                     fs::write(&output_path, &updated).with_context(|| {
                         format!("overwrite existing document in {:?}", test.path)
                     })?;
